@@ -279,6 +279,8 @@ pub fn check_c06(layout: &Layout, h1: &Vec<Event>, h2: &Vec<Event>, trace: bool)
   None
 }
 
+pub fn ev_string(e: &Event) -> String { ev_str(e) }
+pub fn state_dump(m: &Mapper) -> String { format!("{:?}", m.state) }
 fn ev_str(e: &Event) -> String { if *e == RELEASE_ALL { "RELEASE_ALL".to_string() } else { match e { Pressed(k) => format!("P:{:?}", k), Released(k) => format!("R:{:?}", k) } } }
 fn ev_parse(s: &str) -> Event {
   if s == "RELEASE_ALL" { return RELEASE_ALL; }
